@@ -113,6 +113,25 @@ def compare_tokens(src, out, case, keep_all=False, ranges=(), what='luamin'):
         raise Violation('%s output has %d significant tokens, input has %d (first unmatched: %s) -- input %s -- '
                         'output %s' % (what, len(sig_out), len(sig_in), show(extra.text, 30), show(src, 160),
                                        show(out, 160)), case, 'count')
+    # A numeral directly followed by a '.' (as in `1.5..s`): picotool's dialect - and REFLEX with it - ends the numeral
+    # before a `..`, but Lua's and PICO-8's own lexers take the dots into the numeral (malformed number).  Source that
+    # was written that way is the author's business; the minifier must not CREATE the adjacency.
+    def glued_dot(ref):
+        out = set()
+        k = -1
+        for i, t in enumerate(ref):
+            if t.kind in reflex.SIGNIFICANT:
+                k += 1
+                if t.kind == 'number' and i + 1 < len(ref) and ref[i + 1].text[:1] == b'.':
+                    out.add(k)
+        return out
+    new_glue = glued_dot(ref_out) - glued_dot(ref_in)
+    if new_glue:
+        k = min(new_glue)
+        raise Violation('%s writes the number %s directly in front of %s: Lua and PICO-8 read the dots as part of the '
+                        'numeral (tokens fused) -- input %s -- output %s'
+                        % (what, show(sig_out[k].text), show(sig_out[k + 1].text if k + 1 < len(sig_out) else b''),
+                           show(src, 140), show(out, 140)), case, 'number-dot-fused')
     # line-scoped constructs
     pos_out = [k for k, t in enumerate(ref_out) if t.kind in reflex.SIGNIFICANT]
     for (i, j) in ranges:
